@@ -15,6 +15,8 @@ type TypeEntry struct {
 	XML   string // path of the XML dump
 	Node  *XNode
 	Tid   string
+	Expr  string // grammar shapes: the field / root type expression
+	Fam   string // grammar shapes: family for the distribution
 }
 
 var Registry []*TypeEntry
@@ -22,4 +24,9 @@ var Registry []*TypeEntry
 // Register is called from the generated main of a check run.
 func Register(group, name string, zero any, ins inspector.Inspector, xmlPath string) {
 	Registry = append(Registry, &TypeEntry{Group: group, Name: name, Type: reflect.TypeOf(zero), Ins: ins, XML: xmlPath})
+}
+
+// RegisterShape registers a grammar shape together with its expression and family.
+func RegisterShape(group, name string, zero any, ins inspector.Inspector, xmlPath, expr, fam string) {
+	Registry = append(Registry, &TypeEntry{Group: group, Name: name, Type: reflect.TypeOf(zero), Ins: ins, XML: xmlPath, Expr: expr, Fam: fam})
 }
